@@ -121,6 +121,11 @@ func (c *ctxT) c01Genesis(facts map[string]any) string {
 	hashTypes := []string{"MsgSendToFxClaim", "MsgBridgeCallClaim", "MsgBridgeCallResultClaim", "MsgSendToExternalClaim", "MsgBridgeTokenClaim", "MsgOracleSetUpdatedClaim"}
 	coversHeight, coversNonce := true, true
 	perType := map[string]string{}
+	// round 5: identity fields that FOLLOW EACH OTHER in the hashed path WITHOUT a separator (two verbs of the format string
+	// with nothing between them): (claim type, left argument, right argument); a format that is not a string literal, or whose
+	// verbs do not match its arguments, is reported as ("?", "?")
+	var joined [][3]string
+	reVerb := regexp.MustCompile(`%[-+# 0]*[0-9]*(\.[0-9]+)?[a-zA-Z]`)
 	reArg := regexp.MustCompile(`\bm\.(BlockHeight|EventNonce)\b`)
 	for _, tn := range hashTypes {
 		fd := c.findFunc(c01Types, tn, "ClaimHash")
@@ -132,6 +137,24 @@ func (c *ctxT) c01Genesis(facts map[string]any) string {
 					return true
 				}
 				if se, ok := ce.Fun.(*ast.SelectorExpr); ok && (se.Sel.Name == "Sprintf" || se.Sel.Name == "Fprintf" || se.Sel.Name == "Sprint") {
+					if se.Sel.Name == "Sprintf" {
+						lit, isLit := ce.Args[0].(*ast.BasicLit)
+						if !isLit {
+							joined = append(joined, [3]string{tn, "?", "?"})
+						} else {
+							f := strings.Trim(lit.Value, "\"`")
+							locs := reVerb.FindAllStringIndex(f, -1)
+							if len(locs) != len(ce.Args)-1 {
+								joined = append(joined, [3]string{tn, "?", "?"})
+							} else {
+								for vi := 0; vi+1 < len(locs); vi++ {
+									if locs[vi][1] == locs[vi+1][0] {
+										joined = append(joined, [3]string{tn, c.src(ce.Args[1+vi]), c.src(ce.Args[2+vi])})
+									}
+								}
+							}
+						}
+					}
 					for _, a := range ce.Args[1:] {
 						for _, m := range reArg.FindAllStringSubmatch(c.src(a), -1) {
 							if m[1] == "BlockHeight" {
@@ -150,6 +173,7 @@ func (c *ctxT) c01Genesis(facts map[string]any) string {
 		coversNonce = coversNonce && n
 	}
 	facts["C01.claimHashCovers"] = perType
+	facts["C01.claimHashJoined"] = joined
 
 	var sb strings.Builder
 	sb.WriteString("/-- the statements of `InitGenesis` that write a modelled prefix (`loadOracles rec idxB idxE`: the loop over `state.Oracles` stores the record / the bridger index / the external-address index) -/\ninductive GenStmt where\n  | setParams | setLastObserved | setProposal\n  | loadOracles (rec idxB idxE : Bool)\n  | refreshTotal | loadAtts | rebuildLastNonce | unknown\n  deriving DecidableEq, Repr\n\n")
@@ -165,5 +189,10 @@ func (c *ctxT) c01Genesis(facts map[string]any) string {
 	w("ExportGenesis exports LastEventNonceByOracle (otherwise InitGenesis reconstructs it from the votes)", "exportHasLastNonce", expLastNonce)
 	w("all six ClaimHash implementations format m.BlockHeight into the hashed path", "claimHashCoversHeight", coversHeight)
 	w("all six ClaimHash implementations format m.EventNonce into the hashed path", "claimHashCoversNonce", coversNonce)
+	var js []string
+	for _, j := range joined {
+		js = append(js, fmt.Sprintf("(%q, %q, %q)", j[0], j[1], j[2]))
+	}
+	fmt.Fprintf(&sb, "/-- ClaimHash format strings: pairs of identity fields that follow each other WITHOUT a separator (claim type, left argument, right argument) -/\ndef claimHashJoined : List (String × String × String) := [%s]\n\n", strings.Join(js, ", "))
 	return sb.String()
 }
